@@ -93,6 +93,8 @@ def generate(rng, tier):
     case = {"fmt": fmt, "suffix": suffix, "opts": {}}
     if rng.random() < 0.12:
         case["subdir"] = rng.choice(["year=2024", "a=1/b=x", "v1.2.csv", "with space", "x=1"])
+    elif rng.random() < 0.1:
+        case["relpath"] = rng.choice(["bare", "bare", "dot", "newdir"])
     n = rng.choice([1, 2, 3, 5, 9])
     enc = "utf-8"
     if fmt in ("csv", "json", "lod-json", "lod-csv"):
@@ -196,6 +198,13 @@ def _magic_ok(res, path, suffix, what):
         res.violate(f"{what}:not-compressed:{suffix}", f"{what} to a path ending in {suffix} wrote bytes starting {head!r} (expected {MAGIC[suffix]!r})")
 
 def execute(case):
+    prev = os.getcwd()
+    try:
+        return _execute(case)
+    finally:
+        os.chdir(prev)
+
+def _execute(case):
     import dataiter as di
     fmt, suffix, opts = case["fmt"], case["suffix"], dict(case["opts"])
     scratch = os.environ.get("VERIF_SCRATCH") or "/tmp"
@@ -212,7 +221,13 @@ def execute(case):
         for f in os.listdir(d):
             os.remove(os.path.join(d, f))
     path = os.path.join(d, "f" + ext + suffix)
+    rel = case.get("relpath")
+    if rel:
+        # a path relative to the working directory: a bare file name, ./name, or a directory that does not exist yet
+        os.chdir(d)
+        path = {"bare": "f", "dot": "./f", "newdir": f"new{os.getpid()}_{len(repr(case)) % 1000}/f"}[rel] + ext + suffix
     res = Result(nontrivial=True)
+    if rel: res.cls(f"path:relative-{rel}")
     res.cls(f"fmt:{fmt}", f"suffix:{suffix or 'plain'}")
     if case.get("subdir"): res.cls("path:meaningful-directory-name")
     if case.get("big"): res.cls("big-file")
